@@ -129,7 +129,7 @@ type Exec struct {
 	sideObls         []*Obligation
 	curTag           string
 	hypTags          map[*Term]string
-	collect          *[]*State
+	blockDepth       int
 	splitBudget      int
 	goalMode         bool
 	usedContracts    map[string]bool
@@ -620,96 +620,98 @@ func (x *Exec) selection(e *ast.SelectorExpr) *types.Selection {
 
 // ---- statements ----
 
-// execBlock executes statements; returns the fall-through state or nil.
+// execBlock executes statements; returns the (merged) fall-through state or nil.
 func (x *Exec) execBlock(s *State, list []ast.Stmt) *State {
-	for idx, st := range list {
-		if s == nil || s.dead {
-			return nil
-		}
-		if x.splitBudget > 0 && len(x.frames) == 1 && idx+1 < len(list) && x.isSplitBlock(list) {
-			switch st.(type) {
-			case *ast.IfStmt, *ast.SwitchStmt:
-				var outs []*State
-				x.collect = &outs
-				base := s.clone()
-				r := x.execStmt(s, st)
-				x.collect = nil
-				if r != nil {
-					outs = append(outs, r)
-				}
-				if len(outs) <= 1 {
-					if len(outs) == 0 {
-						return nil
-					}
-					s = outs[0]
-					continue
-				}
-				x.splitBudget -= len(outs) - 1
-				var results []*State
-				for _, o := range outs {
-					if o == nil || o.dead {
-						continue
-					}
-					if r := x.execBlock(o, list[idx+1:]); r != nil {
-						results = append(results, r)
-					}
-				}
-				// at the end of the function body every path is its own return
-				if body := x.frames[0].fi.Decl.Body.List; len(body) > 0 && &body[len(body)-1] == &list[len(list)-1] {
-					f := x.frames[0]
-					for _, r := range results {
-						if r.dead {
-							continue
-						}
-						var vals []*Term
-						for _, ro := range f.results {
-							vals = append(vals, r.env[ro])
-						}
-						f.rets = append(f.rets, &RetState{s: r, vals: vals})
-					}
-					return nil
-				}
-				// at the end of a loop body every path reaches the back edge on its own
-				if fr := x.frame(); len(fr.loops) > 0 {
-					lc := fr.loops[len(fr.loops)-1]
-					if len(lc.body) > 0 && &lc.body[len(lc.body)-1] == &list[len(list)-1] {
-						lc.conts = append(lc.conts, results...)
-						return nil
-					}
-				}
-				return x.merge(base, results...)
-			}
-		}
-		s = x.execStmt(s, st)
-	}
-	return s
-}
-
-// split mode applies to the function's top-level block and to the direct body of its loops
-func (x *Exec) isSplitBlock(list []ast.Stmt) bool {
-	last := &list[len(list)-1]
-	if body := x.frames[0].fi.Decl.Body.List; len(body) > 0 && &body[len(body)-1] == last {
-		return true
-	}
-	for _, lc := range x.frames[0].loops {
-		if len(lc.body) > 0 && &lc.body[len(lc.body)-1] == last {
-			return true
-		}
-	}
-	return false
-}
-
-// joinOuts merges the out-states of a branching statement, or hands them to the enclosing block in split mode
-func (x *Exec) joinOuts(collect *[]*State, base *State, outs ...*State) *State {
-	if collect != nil {
-		for _, o := range outs {
-			if o != nil && !o.dead {
-				*collect = append(*collect, o)
-			}
-		}
+	if s == nil || s.dead {
 		return nil
 	}
+	base := s.clone()
+	outs := x.execBlockM([]*State{s}, list)
 	return x.merge(base, outs...)
+}
+
+// splitActive: path splitting is requested for the function under verification and there is budget left
+func (x *Exec) splitActive(nested bool) bool {
+	if len(x.frames) != 1 || x.splitBudget <= 0 {
+		return false
+	}
+	c := x.frames[0].contract
+	if c == nil || c.Split == 0 {
+		return false
+	}
+	if nested && !c.SplitDeep {
+		return false
+	}
+	return true
+}
+
+// execBlockM executes the statements on every incoming state and keeps the resulting states apart
+// (path splitting) as long as the split budget allows; otherwise branches are merged at their joins.
+func (x *Exec) execBlockM(states []*State, list []ast.Stmt) []*State {
+	x.blockDepth++
+	defer func() { x.blockDepth-- }()
+	for _, st := range list {
+		var next []*State
+		for _, s := range states {
+			if s == nil || s.dead {
+				continue
+			}
+			next = append(next, x.execStmtM(s, st)...)
+		}
+		states = next
+		if len(states) == 0 {
+			return nil
+		}
+	}
+	return states
+}
+
+// execStmtM: branching statements may return several states; everything else returns at most one.
+func (x *Exec) execStmtM(s *State, st ast.Stmt) []*State {
+	one := func(r *State) []*State {
+		if r == nil || r.dead {
+			return nil
+		}
+		return []*State{r}
+	}
+	switch n := st.(type) {
+	case *ast.BlockStmt:
+		return x.execBlockM([]*State{s}, n.List)
+	case *ast.LabeledStmt:
+		x.frame().label = n.Label.Name
+		return x.execStmtM(s, n.Stmt)
+	case *ast.IfStmt:
+		base := s.clone()
+		outs := x.execIfM(s, n)
+		return x.splitOrMerge(base, outs)
+	case *ast.SwitchStmt:
+		base := s.clone()
+		outs := x.execSwitchM(s, n)
+		return x.splitOrMerge(base, outs)
+	}
+	return one(x.execStmt(s, st))
+}
+
+func (x *Exec) splitOrMerge(base *State, outs []*State) []*State {
+	var live []*State
+	for _, o := range outs {
+		if o != nil && !o.dead {
+			live = append(live, o)
+		}
+	}
+	if len(live) <= 1 {
+		return live
+	}
+	// blockDepth 1 = function body, loop bodies reset the depth (see cutLoop)
+	if x.splitActive(x.blockDepth > 1) {
+		x.splitBudget -= len(live) - 1
+		return live
+	}
+	m := x.merge(base, live...)
+	if m == nil {
+		return nil
+	}
+	return []*State{m}
 }
 
 func (x *Exec) execStmt(s *State, st ast.Stmt) *State {
@@ -781,9 +783,11 @@ func (x *Exec) execStmt(s *State, st ast.Stmt) *State {
 		}
 		return s
 	case *ast.IfStmt:
-		return x.execIf(s, n)
+		base := s.clone()
+		return x.merge(base, x.execIfM(s, n)...)
 	case *ast.SwitchStmt:
-		return x.execSwitch(s, n)
+		base := s.clone()
+		return x.merge(base, x.execSwitchM(s, n)...)
 	case *ast.TypeSwitchStmt:
 		return x.execTypeSwitch(s, n)
 	case *ast.ForStmt:
@@ -860,9 +864,7 @@ func (x *Exec) execBranch(s *State, n *ast.BranchStmt) *State {
 	return s
 }
 
-func (x *Exec) execIf(s *State, n *ast.IfStmt) *State {
-	collect := x.collect
-	x.collect = nil
+func (x *Exec) execIfM(s *State, n *ast.IfStmt) []*State {
 	if n.Init != nil {
 		s = x.execStmt(s, n.Init)
 		if s == nil {
@@ -873,27 +875,25 @@ func (x *Exec) execIf(s *State, n *ast.IfStmt) *State {
 	if s.dead {
 		return nil
 	}
-	var s1, s2 *State
+	var outs []*State
 	if c != False {
 		t := s.clone()
 		t.assume(c)
-		s1 = x.execBlock(t, n.Body.List)
+		outs = append(outs, x.execBlockM([]*State{t}, n.Body.List)...)
 	}
 	if c != True {
 		e := s.clone()
 		e.assume(Not(c))
 		if n.Else != nil {
-			s2 = x.execStmt(e, n.Else)
+			outs = append(outs, x.execStmtM(e, n.Else)...)
 		} else {
-			s2 = e
+			outs = append(outs, e)
 		}
 	}
-	return x.joinOuts(collect, s, s1, s2)
+	return outs
 }
 
-func (x *Exec) execSwitch(s *State, n *ast.SwitchStmt) *State {
-	collect := x.collect
-	x.collect = nil
+func (x *Exec) execSwitchM(s *State, n *ast.SwitchStmt) []*State {
 	if n.Init != nil {
 		s = x.execStmt(s, n.Init)
 		if s == nil {
@@ -946,10 +946,7 @@ func (x *Exec) execSwitch(s *State, n *ast.SwitchStmt) *State {
 				}
 				break
 			}
-			out := x.execBlock(t, body)
-			if out != nil {
-				outs = append(outs, out)
-			}
+			outs = append(outs, x.execBlockM([]*State{t}, body)...)
 		}
 		rest.assume(Not(c))
 		if rest.dead {
@@ -958,17 +955,14 @@ func (x *Exec) execSwitch(s *State, n *ast.SwitchStmt) *State {
 	}
 	if !rest.dead {
 		if defaultClause != nil {
-			out := x.execBlock(rest, defaultClause.Body)
-			if out != nil {
-				outs = append(outs, out)
-			}
+			outs = append(outs, x.execBlockM([]*State{rest}, defaultClause.Body)...)
 		} else {
 			outs = append(outs, rest)
 		}
 	}
 	f.loops = f.loops[:len(f.loops)-1]
 	outs = append(outs, lc.breaks...)
-	return x.joinOuts(collect, s, outs...)
+	return outs
 }
 
 func (x *Exec) execTypeSwitch(s *State, n *ast.TypeSwitchStmt) *State {
